@@ -354,6 +354,17 @@ Definition lit_value_top (parse_f64 : list byte -> option Z) (S : lschema) (t : 
 Definition well_typed_lit (parse_f64 : list byte -> option Z) (S : lschema) (t : ty) (l : lit) : bool :=
   well_typed_lit_n parse_f64 S (efuel S) t l.
 
+(* every field default of the schema is well-typed *)
+Definition lits_typed (parse_f64 : list byte -> option Z) (S : lschema) : bool :=
+  forallb (fun i => match i with
+                    | IStruct fs _ _ =>
+                        forallb (fun f => match lf_dflt f with
+                                          | Some l => well_typed_lit parse_f64 S (erase (lf_ty f)) l
+                                          | None => true
+                                          end) fs
+                    | _ => true
+                    end) (ls_items S).
+
 (* C20: the value T::default() must hold, for the struct / union / enum / typedef with index n *)
 Definition expected_default (parse_f64 : list byte -> option Z) (S : lschema) (n : nat) : option gval :=
   sempty_n parse_f64 S (efuel S) (Datatypes.S (Datatypes.S (length (ls_items S)))) (TyRef n).
